@@ -5,6 +5,7 @@ package interp
 
 import (
 	"fmt"
+	"math/big"
 	"go/token"
 	"go/types"
 	"sort"
@@ -90,6 +91,17 @@ func (i *interpreter) resolve(fn *ssa.Function) *fnAction {
 			return &fnAction{intrinsic: f}
 		}
 		panic(engineFault{"unknown prelude method " + m})
+	}
+	// generated protobuf size helpers sovXxx(x uint64) int = number of varint bytes
+	if strings.Contains(name, ".sov") && fn.Signature.Params().Len() == 1 && fn.Signature.Results().Len() == 1 && fn.Signature.Recv() == nil {
+		if b, ok := fn.Signature.Params().At(0).Type().Underlying().(*types.Basic); ok && b.Kind() == types.Uint64 {
+			return &fnAction{intrinsic: intrVarintLen}
+		}
+	}
+	for _, suf := range i.cfg.ConcretizeResults {
+		if strings.HasSuffix(name, suf) || (strings.HasSuffix(suf, "*") && strings.Contains(name, suf[:len(suf)-1])) {
+			return &fnAction{concResult: true}
+		}
 	}
 	if f, ok := intrinsics[name]; ok {
 		return &fnAction{intrinsic: f}
@@ -933,4 +945,20 @@ func FuncNames(m map[*ssa.Function]bool) []string {
 	}
 	sort.Strings(out)
 	return out
+}
+
+// intrVarintLen models sovXxx: (bits.Len64(x|1)+6)/7 as a cascade of range tests
+// (validated against the real body in concrete mode by the engine's self-test).
+func intrVarintLen(fr *frame, a []value) value {
+	if !anySym(a) {
+		return runReal(fr, a)
+	}
+	st := fr.st()
+	x := lift(st, a[0])
+	for k := 1; k <= 9; k++ {
+		if fr.cond(lower(types.Typ[types.Bool], st.ULt(x, st.BV(new(big.Int).Lsh(bigOne, uint(7*k)), 64)))) {
+			return k
+		}
+	}
+	return 10
 }
